@@ -62,9 +62,13 @@ func (w *World) runMonitors() {
 	w.monWill(h)
 	w.monTerminate(h)
 	w.monTakeover(h)
-	w.monResendOrder(h)
-	w.monMissing(h)
-	w.monKept(h)
+	if !w.concurrent {
+		// these judge by the order of stimuli and observations in the history, which is only meaningful when every
+		// stimulus was processed to quiescence before the next one was sent
+		w.monResendOrder(h)
+		w.monMissing(h)
+		w.monKept(h)
+	}
 	w.monSurvive(h)
 }
 
@@ -162,6 +166,7 @@ func (w *World) monRequestResponse(h []ev) {
 		pings      int
 		closed     bool
 		backend    int
+		setupDone  bool
 	}
 	st := map[int]*cs{}
 	get := func(c int) *cs {
@@ -195,8 +200,8 @@ func (w *World) monRequestResponse(h []ev) {
 				s.first = e.pkt
 				continue
 			}
-			if !s.accepted {
-				continue
+			if !s.accepted && !w.concurrent {
+				continue // (concurrently fired programs send their requests before the CONNACK has arrived)
 			}
 			switch p := e.pkt.(type) {
 			case *packet.Subscribe:
@@ -255,7 +260,10 @@ func (w *World) monRequestResponse(h []ev) {
 		case "closed":
 			s.closed = true
 		case "setup", "terminate", "bpublish":
-			if e.conn > 0 && !get(e.conn).accepted && e.kind != "setup" && !(e.kind == "terminate") {
+			if e.kind == "setup" {
+				s.setupDone = true // accepted by the backend; the CONNACK may still be on its way (or lost to a takeover)
+			}
+			if e.conn > 0 && !get(e.conn).accepted && !get(e.conn).setupDone && e.kind != "setup" && !(e.kind == "terminate") {
 				w.hit("backend-before-connect", fmt.Sprintf("backend %s for connection %d that was never accepted", e.kind, e.conn))
 			}
 			if _, ok := s.first.(*packet.Connect); !ok && e.conn > 0 {
@@ -495,8 +503,9 @@ func (w *World) monDelivery(h []ev) {
 				}
 			}
 		case "setup":
-			if e.txt == "0" {
-				// fresh session for this connection
+			if e.txt == "0" && !w.concurrent {
+				// fresh session for this connection (with concurrently fired programs the SUBSCRIBEs were recorded before the
+				// broker had set the session up: keep them)
 				delete(subs, key(e.conn))
 				delete(everSub, key(e.conn))
 				delete(grantLog, key(e.conn))
@@ -584,7 +593,7 @@ func (w *World) monDelivery(h []ev) {
 					}
 				}
 			}
-			if len(allowed) > 0 && !allowed[p.Message.QOS] && !p.Dup && !invalidHeld {
+			if len(allowed) > 0 && !allowed[p.Message.QOS] && !p.Dup && !invalidHeld && !w.concurrent {
 				w.hit("delivery-qos-not-capped", fmt.Sprintf("connection %d (%s) received %s: published QoS %d, matching grants allow %v", e.conn, k, e.txt, orig.qos, allowed))
 			}
 			if !capOK {
@@ -739,7 +748,7 @@ func (w *World) monWill(h []ev) {
 					s.will = p.Will
 				}
 			case *packet.Disconnect:
-				if s.accepted {
+				if s.accepted || w.concurrent {
 					s.disconnect = true
 				}
 			}
@@ -769,6 +778,9 @@ func (w *World) monWill(h []ev) {
 		want := 0
 		if s.will != nil && s.accepted && !s.disconnect {
 			want = 1
+		}
+		if w.concurrent && s.disconnect && s.will != nil && s.accepted && s.wills == 1 {
+			continue // the DISCONNECT was fired, but the connection may have been displaced before the broker read it
 		}
 		if s.wills != want {
 			w.hit("will-count", fmt.Sprintf("connection %d (accepted=%v disconnect=%v will=%v): will published %d times, expected %d", c, s.accepted, s.disconnect, s.will != nil, s.wills, want))
